@@ -262,6 +262,9 @@ func runNodeCase(t *testing.T, c c06NodeCase) (sig, msg string) {
 			cf.SuspicionMaxTimeoutMult = c.MaxMult
 			cf.IndirectChecks = 0
 			cf.DisableTcpPings = true
+			// shorter than every suspicion timeout: a suspicion outlives the window in which the dead are
+			// still gossiped to and kept (only the dead and the departed may be forgotten after it)
+			cf.GossipToTheDeadTime = 500 * time.Millisecond
 		})
 		must(err)
 		o := b.track(nd)
@@ -378,6 +381,8 @@ func runNodeCase(t *testing.T, c c06NodeCase) (sig, msg string) {
 				o.M.VAliveNode(&ml.VAlive{Incarnation: inc, Node: "x", Addr: ip4(2), Port: 7946, Vsn: defaultVsn}, nil, false)
 			case "addnode":
 				o.M.VAliveNode(&ml.VAlive{Incarnation: 1, Node: "late", Addr: ip4(99), Port: 7946, Vsn: defaultVsn}, nil, false)
+			case "wrap": // the probe cursor wraps around: the reaping pass must leave a suspected member alone
+				o.M.VResetNodes()
 			}
 			settle()
 		}
@@ -548,7 +553,7 @@ func TestC06(t *testing.T) {
 			sort.Slice(menu, func(i, j int) bool { return menu[i] < menu[j] })
 			kinds := []nev{{Kind: "confirm", From: "o"}, {Kind: "confirm", From: "t"}, {Kind: "confirm", From: "u"}, {Kind: "confirm", From: "x"},
 				{Kind: "refute"}, {Kind: "resuspect", From: "u"}, {Kind: "dead", From: "t"}, {Kind: "leave"}, {Kind: "addnode"},
-				{Kind: "staledead", From: "t"}, {Kind: "stalesuspect", From: "v"}, {Kind: "stalealive"}, {Kind: "newersuspect", From: "w"}}
+				{Kind: "staledead", From: "t"}, {Kind: "stalesuspect", From: "v"}, {Kind: "stalealive"}, {Kind: "newersuspect", From: "w"}, {Kind: "wrap"}}
 			if thorough() {
 				kinds = append(kinds, nev{Kind: "confirm", From: "v"}, nev{Kind: "resuspect", From: "o"})
 			}
